@@ -1,10 +1,13 @@
+import IcyVerif.Drv.Bgi
 import IcyVerif.Drv.Codec
 import IcyVerif.Drv.ColorOpt
 import IcyVerif.Drv.Comp
 import IcyVerif.Drv.Crc
 import IcyVerif.Drv.Font
 import IcyVerif.Drv.IcyDraw
+import IcyVerif.Drv.Igs
 import IcyVerif.Drv.Palette
+import IcyVerif.Drv.Rip
 import IcyVerif.Drv.Sauce
 import IcyVerif.Drv.Sixel
 import IcyVerif.Drv.SixelQueue
@@ -17,13 +20,16 @@ open IcyVerif.Drv
 
 def dispatch (line : String) : String :=
   match line.trimAscii.toString.splitOn " " with
+  | "bgi" :: rest => Bgi.handle rest
   | "codec" :: rest => Codec.handle rest
   | "coloropt" :: rest => ColorOpt.handle rest
   | "comp" :: rest => Comp.handle rest
   | "crc" :: rest => Crc.handle rest
   | "font" :: rest => Font.handle rest
   | "icydraw" :: rest => IcyDraw.handle rest
+  | "igs" :: rest => Igs.handle rest
   | "palette" :: rest => Palette.handle rest
+  | "rip" :: rest => Rip.handle rest
   | "sauce" :: rest => Sauce.handle rest
   | "sixel" :: rest => Sixel.handle rest
   | "sixelqueue" :: rest => SixelQueue.handle rest
